@@ -26,7 +26,7 @@ ASSUMPTIONS = ["simulated Slurm; all jobs succeed between steps", "an absent has
 KINDS = ["run", "run", "run_fault", "dry", "status", "touch", "clean", "edit", "edit", "toggle", "rename", "remove"]
 
 
-QUICK_BUDGET = {"cases": 160, "deadline_s": 110, "case_timeout_s": 150, "floors": {"steps": 1400, "store_comparisons": 1400, "status_comparisons": 1400, "record_changes": 120}}
+QUICK_BUDGET = {"cases": 160, "deadline_s": 170, "case_timeout_s": 150, "floors": {"steps": 565, "store_comparisons": 844, "status_comparisons": 565, "record_changes": 68}}
 THOROUGH_FACTOR = 12  # thorough = the same workload with 12x the cases (floors scale along)
 
 
